@@ -150,10 +150,17 @@ func (w *world) panics() {
 
 // pingBody assembles version, header length, CBOR header and body with
 // optional inconsistencies.
+// forceCode, if >= 0, fixes the ping code of the next header pingBody builds.
+var forceCode = -1
+
 func pingBody(tp *core.Tape, id *m.Address, pingType string, body []byte) []byte {
 	hdr := router.PingHeader{
 		PingID: uint64(tp.Uint32()), PingType: pingType, PingCode: uint8(tp.Intn(7)), FollowUp: tp.Chance(1, 3),
 		AddrHash: id.Hash, KeyType: id.Type, PublicKey: id.PublicKey,
+	}
+	if forceCode >= 0 {
+		hdr.PingCode, hdr.FollowUp = uint8(forceCode), false
+		forceCode = -1
 	}
 	switch tp.Intn(8) {
 	case 0:
@@ -189,6 +196,7 @@ func pingBody(tp *core.Tape, id *m.Address, pingType string, body []byte) []byte
 
 func run(e *core.Env) {
 	tp := e.Tape
+	forceCode = -1
 	e.StartClock()
 	node.CaptureStderr()
 	node.NewStderr()
@@ -407,6 +415,47 @@ func run(e *core.Env) {
 		default:
 			// ---- (b) correctly sealed but malformed messages from M ----
 			for k, n := 0, 1+tp.Intn(12); k < n; k++ {
+				if tp.Chance(1, 8) {
+					// A plain, fully valid message in between: an inner packet from M for V's
+					// interface (V then keeps a connection state for M, whatever its verdict), or an
+					// error report about M / V / H sealed by M. What the malformed messages around
+					// it meet at V is then a router with a history.
+					if tp.Chance(1, 2) {
+						pkt := make([]byte, 44+tp.Intn(40))
+						pkt[0] = 6 << 4
+						pkt[6] = []byte{6, 17, 58}[tp.Intn(3)]
+						s, d := M.IP.As16(), V.IP.As16()
+						copy(pkt[8:24], s[:])
+						copy(pkt[24:40], d[:])
+						m.PutUint16(pkt[40:42], uint16(1024+tp.Intn(3)))
+						m.PutUint16(pkt[42:44], []uint16{22, 53, 80}[tp.Intn(3)])
+						if f, err := M.Inst.Builder.NewFrameV1(M.IP, V.IP, frame.NetworkTraffic, nil, pkt, nil); err == nil {
+							if sess := M.State.GetSession(V.IP); sess != nil && f.Seal(sess) == nil {
+								w.what = "valid traffic frame from M for V's interface"
+								sendFromM(f)
+								e.Probe("valid_traffic_frame_in_between")
+							} else {
+								f.ReturnToPool()
+							}
+						}
+					} else {
+						about := []netip.Addr{M.IP, M.IP, H.IP, V.IP}[tp.Intn(4)]
+						w.what = "valid error report from M about " + about.String()
+						switch tp.Intn(3) {
+						case 0:
+							_ = M.Router.ErrorPing.SendUnreachable(V.IP, about)
+						case 1:
+							_ = M.Router.ErrorPing.SendRejected(V.IP, about, []uint8{6, 17, 58}[tp.Intn(3)], uint16(1024+tp.Intn(3)))
+						default:
+							_ = M.Router.ErrorPing.SendAccessDenied(V.IP, about, []uint8{6, 17, 58}[tp.Intn(3)], uint16(1024+tp.Intn(3)))
+						}
+						simnet.Wait()
+						w.cn.DrainFIFO(tp, 400)
+						e.Probe("valid_error_report_in_between")
+					}
+					w.panics()
+					continue
+				}
 				src := M.ID
 				firstContact := tp.Chance(1, 6)
 				if firstContact {
@@ -464,6 +513,21 @@ func run(e *core.Env) {
 						inner, _ = cbor.Marshal(&msg)
 					default:
 						inner = tp.Bytes(tp.Intn(200))
+					}
+					if tp.Chance(1, 6) {
+						// a well-formed error report about a router V may hold connection states
+						// for (the sender itself, another peer, V, a stranger)
+						pt = "error"
+						kind = "ping:error"
+						about := []netip.Addr{M.IP, M.IP, H.IP, V.IP, unknown.IP}[tp.Intn(5)]
+						if tp.Chance(1, 2) {
+							inner, _ = cbor.Marshal(map[string]any{"u": about})
+							forceCode = 1
+						} else {
+							inner, _ = cbor.Marshal(map[string]any{"d": about, "t": []uint8{6, 17, 58, 0}[tp.Intn(4)], "p": uint16(tp.Intn(65536))})
+							forceCode = 3 + tp.Intn(2)
+						}
+						e.Probe("well_formed_error_report")
 					}
 					if tp.Chance(1, 4) {
 						inner = mutateBytes(tp, inner)
